@@ -12,7 +12,7 @@ RULE = ('close: bidirectional exchanges under seeded random schedules (5 chunk p
         'following data record still delivered in order. reneg: requested by client or server on a quiescent connection (must complete, hellos '
         'carry renegotiation_info equal to the previous Finished values as decoded from the wire, keys change, streams exact before/after, three in '
         'a row), with BR_OPT_NO_RENEGOTIATION on the other side (no_renegotiation warning on the wire, no key change), documented refusals of '
-        'br_ssl_engine_renegotiate, and with application data in flight. decline: a scripted peer (records forged with the real keys) sends HelloRequest / a renegotiation ClientHello to an endpoint with BR_OPT_NO_RENEGOTIATION: exactly one no_renegotiation warning, connection stays open, following data delivered in order. sslio: the client is driven through br_sslio_* with callbacks that pump '
+        'br_ssl_engine_renegotiate, with application data in flight, and with a rogue peer whose saved Finished values differ in one bit at each of the 24 positions on either side (must be refused, never re-keyed). decline: a scripted peer (records forged with the real keys) sends HelloRequest / a renegotiation ClientHello to an endpoint with BR_OPT_NO_RENEGOTIATION: exactly one no_renegotiation warning, connection stays open, following data delivered in order. sslio: the client is driven through br_sslio_* with callbacks that pump '
         'the server; orderly close returns 1 with error 0, a transport cut gives a non-zero error. distinct = configuration tuples per mode + schedules.')
 ASSUMPTIONS = [
     'peers without RFC 5746 support cannot be produced by the stacks on this image; that sub-clause is not explored',
@@ -22,14 +22,14 @@ ASSUMPTIONS = [
 EVAL = ['cases', 'cut_points', 'alerts_injected']
 DISTINCT = ['close_cfg', 'cut_cfg', 'alert_cfg', 'reneg_cfg', 'sslio_cfg', 'decline_cfg', 'schedule']
 REQUIRED = ['close_ok', 'cut_points', 'fatal_alerts_reported', 'warnings_ignored_stream_intact', 'renegotiations_completed',
-            'renegotiation_info_verified', 'reneg_declined_cases', 'reneg_refusals_checked', 'sslio_cut_cases', 'sslio_close_calls', 'decline_ok']
+            'renegotiation_info_verified', 'reneg_declined_cases', 'reneg_refusals_checked', 'sslio_cut_cases', 'sslio_close_calls', 'decline_ok', 'reneg_rogue_refused']
 NW = 8
 
 
 def jobs(tier, seed):
     q = tier == 'quick'
     plan = [('close', 1600 if q else 60000, 1), ('cut', 48 if q else 480, 1), ('alert', 32 if q else 96, 16 if q else 1),
-            ('reneg', 480 if q else 14400, 1), ('sslio', 192 if q else 4800, 1),
+            ('reneg', 1344 if q else 20160, 1), ('sslio', 192 if q else 4800, 1),
             ('decline', 192 if q else 4800, 1)]
     js = []
     for mode, n, stride in plan:
